@@ -44,9 +44,13 @@ LEAN_KEYWORDS = set("at from end type fun do then else if let in have show this 
 
 
 def load_ast(repo):
-    srcdir = os.path.join(repo, "src")
-    unity = "".join('#include "%s"\n' % os.path.join(srcdir, f) for f in sorted(os.listdir(srcdir)) if f.endswith(".cpp"))
-    cmd = ["clang++-14", "-x", "c++", "-std=gnu++17", "-I" + os.path.join(repo, "include"), "-fsyntax-only", "-w",
+    from . import buildcfg
+    try:
+        cfg = buildcfg.project_config(repo)      # the build system's source list, definitions and include directories
+    except buildcfg.ConfigError as e:
+        raise Untranslatable(e.what + ": " + e.output[-600:])
+    unity = buildcfg.unity_source(cfg)
+    cmd = ["clang++-14", "-x", "c++", buildcfg.clang_std(cfg)] + buildcfg.clang_args(cfg) + ["-fsyntax-only", "-w",
            "-Xclang", "-ast-dump=json", "-Xclang", "-ast-dump-filter=CMP", "-"]
     r = subprocess.run(cmd, input=unity.encode(), stdout=subprocess.PIPE, stderr=subprocess.PIPE)
     if r.returncode != 0:
@@ -204,8 +208,10 @@ class Layout:
         exe = os.path.join(workdir, "reflect")
         with open(cpp, "w") as f:
             f.write(src)
-        r = subprocess.run(["g++", "-std=c++17", "-O0", "-w", "-fno-access-control", "-Wno-invalid-offsetof", "-I" + os.path.join(repo, "include"),
-                            cpp, "-o", exe], stdout=subprocess.PIPE, stderr=subprocess.STDOUT)
+        from . import buildcfg
+        cfg = buildcfg.project_config(repo)
+        r = subprocess.run(["g++", cfg["std"], "-O0", "-w", "-fno-access-control", "-Wno-invalid-offsetof"] + cfg["includes"] + cfg["defs"] + cfg["codegen"] +
+                           [cpp, "-o", exe], stdout=subprocess.PIPE, stderr=subprocess.STDOUT)
         if r.returncode != 0:
             raise Untranslatable("reflection program does not compile: " + r.stdout.decode(errors="replace")[:800])
         out = subprocess.run([exe], stdout=subprocess.PIPE).stdout.decode()
